@@ -31,6 +31,9 @@ func main() {
 		cmdTry()
 	case "worker":
 		cmdWorker()
+	case "counts":
+		// debug: run the count-inflation cases at box level, print the failing ones
+		cmdCounts()
 	case "corr":
 		_ = fs.Parse(os.Args[2:])
 		cmdCorr(*seed, *n, *exh)
